@@ -106,3 +106,53 @@ Proof.
   - destruct (r_ready p); [split; assumption|].
     destruct (read_from_remote s1 id p a) as [s2 o2]. cbn [fst snd] in *. exact Hread.
 Qed.
+
+(* ---- F11 / C01: what the adapter holds when a connection becomes ready is delivered in that very
+   call, whatever kind of event completed the handshake ---- *)
+Fixpoint chunk_events (ep : endpoint) (chunks : list (N * list ucall)) : list obs :=
+  match chunks with [] => [] | (d, _) :: r => OEv (Message ep d) :: chunk_events ep r end.
+
+Lemma deliver_quiet_events id peer chunks : forall s,
+  Forall (fun c : N * list ucall => snd c = []) chunks ->
+  snd (deliver_chunks s (id, peer) chunks) = chunk_events (id, peer) chunks.
+Proof.
+  induction chunks as [|[d cb] r IH]; intros s HF; cbn [deliver_chunks chunk_events]; [reflexivity|].
+  inversion HF as [|x l Hx Hr]; subst. cbn [snd] in Hx. subst cb. cbn [exec_ucalls].
+  specialize (IH s Hr). destruct (deliver_chunks s (id, peer) r) as [s2 o2]. cbn [fst snd app] in *. rewrite IH. reflexivity.
+Qed.
+
+(* A pending connection whose adapter answers Ready (its handshake completes in this call), with no
+   user interference: the Connected / Accepted event is followed, in the same call, by one Message
+   event per chunk the adapter hands over -- for a READ event and for a WRITE event alike. *)
+Theorem became_ready_delivers_buffered s id rd a p :
+  resource_type gen_layout id = Remote -> find_remote id (remotes s) = Some p -> r_ready p = false ->
+  a_pending a = PReady -> quiet a ->
+  exists ev rest,
+    snd (process s id rd a) = OEv ev :: chunk_events (id, r_peer p) (a_chunks a) ++ rest /\
+    (ev = Connected (id, r_peer p) true \/ exists l, ev = Accepted (id, r_peer p) l).
+Proof.
+  intros Ht Hf Hr Hp (Q0 & Q1 & Q2 & Q3 & Q4). unfold process. rewrite Ht, Hf, Q0. cbn [exec_ucalls].
+  unfold resolve_pending. rewrite Hr, Hp, Q1. cbn [exec_ucalls app].
+  set (s' := with_remotes s (set_ready id (remotes s))).
+  assert (Hread : snd (read_from_remote s' id p a) = chunk_events (id, r_peer p) (a_chunks a) ++
+                  match a_read a with
+                  | RWaitNextEvent => []
+                  | RDisconnected => if snd (deregister_remote s' id) then [OEv (Disconnected (id, r_peer p))] else []
+                  end).
+  { unfold read_from_remote. cbv zeta.
+    match goal with |- context [deliver_chunks s' ?e (a_chunks a)] =>
+      pose proof (deliver_quiet id (r_peer p) (a_chunks a) s' Q4) as [E2 _];
+      pose proof (deliver_quiet_events id (r_peer p) (a_chunks a) s' Q4) as E3;
+      change (id, r_peer p) with e in E2, E3;
+      destruct (deliver_chunks s' e (a_chunks a)) as [s2 o2] end.
+    cbn [fst snd] in E2, E3. subst s2 o2.
+    destruct (a_read a); [|rewrite app_nil_r; reflexivity].
+    rewrite Q2. cbn [exec_ucalls]. destruct (deregister_remote s' id) as [s4 won]. cbn [snd]. destruct won.
+    - rewrite Q3. cbn [exec_ucalls snd app]. reflexivity.
+    - cbn [snd]. reflexivity. }
+  eexists. eexists. split.
+  - destruct rd.
+    + destruct (read_from_remote s' id p a) as [s2 o2]. cbn [snd] in *. rewrite Hread. cbn [app]. reflexivity.
+    + destruct (read_from_remote s' id p a) as [s2 o2]. cbn [snd] in *. rewrite Hread. cbn [app]. reflexivity.
+  - destruct (r_local p) as [l|]; [right; exists l; reflexivity|left; reflexivity].
+Qed.
